@@ -327,6 +327,11 @@ def seeded_bounds(ctx):
     return first
 
 
+def _whole_update_bias(t):
+    i_ = 6.0 + 3.0 * np.sin(1.3 * t)
+    return {"source": i_, "drain": -i_}
+
+
 def whole_update(ctx):
     """Tie A for the COMPOSITION of one adaptive update (Tdgl/AdaptiveRun.lean `adaptiveStep`, driver op `astep`): real
     `TDGLSolver.update` calls on a small driven film, with time steps large enough that the site equation is refused
@@ -345,7 +350,9 @@ def whole_update(ctx):
              dict(dt_init=0.5, dt_max=5.0, window=2, mult=0.25, retries=10, tp=None, steps=8),
              dict(dt_init=3.0, dt_max=5.0, window=3, mult=0.5, retries=12, tp=0.4, steps=8),
              dict(dt_init=3.0, dt_max=3.0, window=3, mult=0.5, retries=1, tp=0.0, steps=3),      # the retries run out
-             dict(dt_init=2e-3, dt_max=2e-3, window=1, mult=0.25, retries=3, tp=0.0, steps=5, adaptive=False)]
+             dict(dt_init=2e-3, dt_max=2e-3, window=1, mult=0.25, retries=3, tp=0.0, steps=5, adaptive=False),
+             # a bias that changes at every step: the boundary data of the Poisson problem are those of the step's own time
+             dict(dt_init=0.2, dt_max=2.0, window=2, mult=0.5, retries=10, tp=0.0, steps=8, bias="timedep")]
     if not ctx.quick:
         cases += [dict(dt_init=1e-2, dt_max=50.0, window=5, mult=0.1, retries=6, tp=None, steps=25),
                   dict(dt_init=1.0, dt_max=9.0, window=1, mult=0.7, retries=30, tp=1.0, steps=20)]
@@ -354,7 +361,7 @@ def whole_update(ctx):
         adaptive = c.get("adaptive", True)
         opts = runs.options(solve_time=1.0, dt_init=c["dt_init"], dt_max=c["dt_max"], adaptive=adaptive, adaptive_window=c["window"],
                             max_solve_retries=c["retries"], adaptive_time_step_multiplier=c["mult"], terminal_psi=c["tp"])
-        solver = TDGLSolver(device=dev, options=opts, applied_vector_potential=0.3, terminal_currents=dict(source=8.0, drain=-8.0))
+        solver = TDGLSolver(device=dev, options=opts, applied_vector_potential=0.3, terminal_currents=(_whole_update_bias if c.get("bias") else dict(source=8.0, drain=-8.0)))
         tsites = np.asarray(solver.normal_boundary_index, dtype=int)
         mask = np.zeros(n, dtype=int)
         if c["tp"] is not None:
